@@ -13,7 +13,7 @@ from . import e2_formula as F
 from .core import AnchorError, Unsupported
 from .e2_eval import is_unknown, need
 from .sem import module_funcs, place
-from .c10_sem import (XSem, Facts, Degrees, ANY, truth, same, app, head, sym_of, const_of, walk, apps, peel, depends, conj, wrap, devectorise,
+from .c10_sem import (XSem, Facts, Degrees, Stencil, ANY, truth, same, app, head, sym_of, const_of, walk, apps, peel, depends, conj, wrap, devectorise,
                       module_consts, str_parts, single_atom, TRUE, FALSE, NONE)
 
 CYC = "pyyeti/cyclecount.py"
@@ -508,7 +508,7 @@ def r6_tolerance_strictness(ctx):
     lf = ctx.src.func(LOC, "find_unique")
     pl = params(lf)
     Sfu = XSem(ctx, lf, consts=module_consts(ctx, LOC), inline={k: v for k, v in module_funcs(ctx, LOC).items() if k != "find_unique"})
-    fu = Sfu.ret()
+    fu = _masks(Sfu, Sfu.ret())
     sites = [("find_unique", lf, Sfu, pl)]
     variants = []
     for q in ("findap", "findap#2"):
@@ -579,49 +579,155 @@ def r6_tolerance_strictness(ctx):
             ctx.check(bool(first), "findap (loop variant): the first sample is always selected", fn, nontrivial=False)
 
 
+def _masks(S, v, depth=3):
+    """a mask built by allocation and one block store  (pv = np.ones(n, bool); pv[1:] = X)  written as the concatenation  hcat(True, X)  it is;
+    other values unchanged"""
+    if v is None or is_unknown(v) or isinstance(v, (tuple, str)) or depth <= 0:
+        return v
+    mp = {}
+    for x in walk(v):
+        s = sym_of(x)
+        if s is None or s not in S.tr.inits or s in mp:
+            continue
+        ini = S.tr.inits[s]
+        fl = app(ini, "call:np.full") if ini is not None and not is_unknown(ini) and not isinstance(ini, tuple) else None
+        if fl is not None and len(fl[1]) == 2:
+            ini = fl[1][1]
+        t0 = truth(ini, None) if ini is not None and not isinstance(ini, tuple) else None
+        cs = S.cells(s)
+        if t0 is None or len(cs) != 1 or cs[0][4]["guard"] or cs[0][4]["loops"] or cs[0][4].get("aug") or is_unknown(cs[0][1]) or is_unknown(cs[0][2]) or isinstance(cs[0][2], tuple):
+            continue
+        if same(cs[0][1], F.fn("slice", F.const(1), NONE, NONE)):
+            mp[s] = F.fn("hcat", F.const(1 if t0 else 0), need(_masks(S, cs[0][2], depth - 1)))
+    if not mp:
+        return v
+    try:
+        return v.subs(mp)
+    except Unsupported:
+        return v
+
+
+def _retained_mask(S, allu, U):
+    """the mask findap builds over the retained samples: dict(mask, cells, ini, ini_t, inner, last, YU) - `inner` the store into [1:-1], `last` the
+    end-point store, YU the array the end-point test indexes; or a text saying which part is missing ('scatter: ...' for the expansion)"""
+    rv = S.ret()
+    arr = sym_of(rv)
+    if arr is None or S.tr.raises:
+        return f"returned value {short(rv)}"
+    mask = arr
+    # the stores into the returned array itself (XSem.cells also lists what a stored row was filled with: not wanted for a masked store)
+    cells = [(c[0], c[1], c[2], c[3], x) for c, x in zip(S.tr.cells, S.tr.cellx) if c[0] == arr]
+    scattered = len(cells) == 1 and sym_of(cells[0][2]) is not None and bool(S.cells(sym_of(cells[0][2])))
+    if scattered or not allu:
+        # the mask of the retained samples is expanded to full size: zeros, then the mask stored at the retained positions
+        # created all False, or as a copy of the retained-samples mask itself (False exactly where nothing is stored)
+        ini0 = S.init(arr)
+        blank = const_of(ini0) == 0 or (U is not None and ini0 is not None and not isinstance(ini0, tuple) and same(_masks(S, ini0), U))
+        ok = scattered and blank and not cells[0][4]["guard"] and U is not None and same(_masks(S, cells[0][1]), U)
+        if not ok:
+            return f"scatter: expansion to full size: {[(short(c[1], 80), short(c[2], 80)) for c in cells]}"
+        mask = sym_of(cells[0][2])
+    cells = S.cells(mask)
+    ini = S.init(mask)
+    inner = [c for c in cells if same(c[1], F.fn("slice", F.const(1), F.const(-1), NONE))]
+    fl = app(ini, "call:np.full") if ini is not None and not is_unknown(ini) else None
+    if fl is not None and len(fl[1]) == 2:
+        ini = fl[1][1]
+    last = [c for c in cells if const_of(c[1]) == -1]
+    ini_t = truth(ini, None) if ini is not None else None
+    text = f"mask stores {[(short(c[1], 60), short(c[2], 160)) for c in cells]} init {short(ini)}"
+    if not (ini_t is not None and len(cells) == len(inner) + len(last) and len(inner) == 1 and len(last) == 1 and not inner[0][4]["guard"]):
+        return text
+    YU = None
+    ne = app(last[0][2], "cmp:NotEq")
+    if ne is not None:
+        x1, x2 = app(ne[1][0], "idx"), app(ne[1][1], "idx")
+        if x1 is not None and x2 is not None and same(x1[1][0], x2[1][0]) and {const_of(x1[1][1]), const_of(x2[1][1])} == {-1, -2}:
+            YU = x1[1][0]
+    if YU is None:
+        return text
+    return dict(mask=mask, cells=cells, ini=ini, ini_t=ini_t, inner=inner[0], last=last[0], YU=YU, YUr=_masks(S, YU), text=text)
+
+
+_EXACT_VALUES = (-50, -1, 0, 1, 70)
+_TABLES = {}
+
+
+def _reversal_tables(st):
+    """the interior test of the vectorised findap on 3-sample signals (first, middle, last all different from their neighbours):
+    (disagreements with 'the middle sample is a strict local extreme' in exact arithmetic, disagreements in int8 arithmetic)"""
+    if st.sig in _TABLES:
+        return _TABLES[st.sig]
+    exact, narrow = [], []
+    for a in _EXACT_VALUES:
+        for b in _EXACT_VALUES:
+            for c in _EXACT_VALUES:
+                if a != b and b != c:
+                    got, want = bool(st([a, b, c], None)), (b - a) * (c - b) < 0
+                    if got != want and len(exact) < 4:
+                        exact.append({"signal": [a, b, c], "middle sample marked": got, "middle sample is a local extreme": want})
+    if not exact:
+        # every int8 signal [0, d0, d0 + d1] whose samples and slopes fit the dtype with room to spare (|.| <= 127; so np.diff and abs
+        # in find_unique are exact and the only thing examined is the reversal test itself)
+        n = 0
+        for d0 in range(-127, 128):
+            for d1 in range(-127, 128):
+                if d0 and d1 and -127 <= d0 + d1 <= 127:
+                    got, want = bool(st([0, d0, d0 + d1], 8)), (d0 < 0) != (d1 < 0)
+                    if got != want:
+                        n += 1
+                        if len(narrow) < 4:
+                            narrow.append({"signal (dtype int8)": [0, d0, d0 + d1], "slopes": [d0, d1], "middle sample marked": got, "middle sample is a local extreme": want})
+        if narrow:
+            narrow.append(f"{n} of the int8 slope pairs disagree")
+    _TABLES[st.sig] = (exact, narrow)
+    return exact, narrow
+
+
 def _findap_numpy(ctx, variant, fu, pl, consts, table, lf):
     q, fn, _, pq, _, S0 = variant
     y = S0.E(pq[0])
     inl = {k: v for k, v in table.items() if k != "findap"}
     inl["locate.find_unique"] = lf
     U = fu.subs({pl[0]: y, pl[1]: S0.E(pq[1])}) if fu is not None and not is_unknown(fu) and not isinstance(fu, tuple) else None
-    res = {}
+    res, twin = {}, {}
     for allu in (True, False):
         f = Facts(preds=[lambda v, allu=allu: (allu if head(v) == "call:np.all" else None)],
                   truths=[(S0.E(f"{pq[0]}.size == 1"), False), (S0.E(f"len({pq[0]}) == 1"), False)])
         res[allu] = XSem(ctx, fn, facts=f, consts=consts, inline=inl)
+        # the same evaluation with conversions to float left visible in the values (they are the identity everywhere else)
+        twin[allu] = XSem(ctx, fn, facts=f, consts=consts, inline=inl, dtypes=True)
+    Sfut = XSem(ctx, lf, consts=module_consts(ctx, LOC), inline={k: v for k, v in module_funcs(ctx, LOC).items() if k != "find_unique"}, dtypes=True)
+    fut = _masks(Sfut, Sfut.ret())
+    Ut = fut.subs({pl[0]: y, pl[1]: S0.E(pq[1])}) if fut is not None and not is_unknown(fut) and not isinstance(fut, tuple) else None
     probs = []
     shape_ok, slope_ok, ret_ok, scatter_ok = True, True, True, True
+    stencils = []
     for allu, S in res.items():
-        rv = S.ret()
-        arr = sym_of(rv)
-        if arr is None or S.tr.raises:
-            probs.append(f"all-unique={allu}: returned value {short(rv)}")
-            shape_ok = False
+        m = _retained_mask(S, allu, U)
+        if isinstance(m, str) and m.startswith("scatter: "):
+            scatter_ok = False
+            probs.append(m[9:])
             continue
-        mask = arr
-        cells = S.cells(arr)
-        scattered = len(cells) == 1 and sym_of(cells[0][2]) is not None and bool(S.cells(sym_of(cells[0][2])))
-        if scattered or not allu:
-            # the mask of the retained samples is expanded to full size: zeros, then the mask stored at the retained positions
-            ok = scattered and const_of(S.init(arr)) == 0 and not cells[0][4]["guard"] and U is not None and same(cells[0][1], U)
-            if not ok:
-                scatter_ok = False
-                probs.append(f"expansion to full size: {[(short(c[1], 80), short(c[2], 80)) for c in cells]}")
-                continue
-            mask = sym_of(cells[0][2])
-        cells = S.cells(mask)
-        ini = S.init(mask)
-        inner = [c for c in cells if same(c[1], F.fn("slice", F.const(1), F.const(-1), NONE))]
-        fl = app(ini, "call:np.full") if ini is not None and not is_unknown(ini) else None
-        if fl is not None and len(fl[1]) == 2:
-            ini = fl[1][1]
-        last = [c for c in cells if const_of(c[1]) == -1]
-        ini_t = truth(ini, None) if ini is not None else None
-        ok = ini_t is not None and len(cells) == len(inner) + len(last) and len(inner) == 1 and len(last) == 1 and not inner[0][4]["guard"]
-        Sg = YU = None
-        if ok:
-            e = app(inner[0][2], "cmp:Eq")
+        if isinstance(m, str):
+            shape_ok = False
+            probs.append(f"all-unique={allu}: {m}")
+            continue
+        YU, inner, last, ini_t = m["YU"], m["inner"], m["last"], m["ini_t"]
+        # the interior test as a function of the window (k-1, k, k+1) of the retained samples, whatever it is written with
+        st = why = None
+        mt = _retained_mask(twin[allu], allu, Ut) if Ut is not None else "find_unique"
+        if isinstance(mt, dict):
+            try:
+                st = Stencil(mt["inner"][2], mt["YU"])
+                if not st.offsets <= {0, 1, 2}:
+                    raise Unsupported(f"the test for sample k reads the retained samples at offsets {sorted(o - 1 for o in st.offsets)} from k")
+            except Unsupported as e:
+                st, why = None, str(e)
+        Sg = None
+        if st is None:
+            # the documented spelling, read as a pattern:  abs(diff(SIGNS)) == 2
+            e = app(inner[2], "cmp:Eq")
             if e is not None:
                 a, b = e[1]
                 if const_of(a) == 2:
@@ -631,25 +737,20 @@ def _findap_numpy(ctx, variant, fu, pl, consts, table, lf):
                     for _, aa, _ in apps(ab[1][0], "idx"):
                         if not isinstance(aa[0], str) and same(ab[1][0], _diff(S, aa[0])):
                             Sg = aa[0]
-            ne = app(last[0][2], "cmp:NotEq")
-            if ne is not None:
-                x1, x2 = app(ne[1][0], "idx"), app(ne[1][1], "idx")
-                if x1 is not None and x2 is not None and same(x1[1][0], x2[1][0]) and {const_of(x1[1][1]), const_of(x2[1][1])} == {-1, -2}:
-                    YU = x1[1][0]
-            ok = Sg is not None and YU is not None
-            if ok:
-                # the end-point store is guarded by "more than two retained samples"
-                g = conj(list(last[0][4]["guard"]))
-                tt = []
-                for nn in (2, 3):
-                    f = Facts()
-                    for v in (S.E("V.size", V=YU), S.E("len(V)", V=YU)):
-                        f.num_set(v, nn)
-                    tt.append(truth(g, f))
-                ok = tt == [False, True]
+        ok = st is not None or Sg is not None
+        if ok:
+            # the end-point store is guarded by "more than two retained samples"
+            g = conj(list(last[4]["guard"]))
+            tt = []
+            for nn in (2, 3):
+                f = Facts()
+                for v in (S.E("V.size", V=YU), S.E("len(V)", V=YU)):
+                    f.num_set(v, nn)
+                tt.append(truth(g, f))
+            ok = tt == [False, True]
         if not ok:
             shape_ok = False
-            probs.append(f"all-unique={allu}: mask stores {[(short(c[1], 60), short(c[2], 160)) for c in cells]} init {short(ini)}")
+            probs.append(f"all-unique={allu}: {m['text']}" + (f" [interior test not evaluated element by element: {why}]" if why else ""))
             continue
         if ini_t is False:
             ret_ok = False          # the mask starts all False and nothing stores its first entry: the first sample is dropped
@@ -657,10 +758,12 @@ def _findap_numpy(ctx, variant, fu, pl, consts, table, lf):
         want_yu = [S.E("Y[U]", Y=y, U=U)] if U is not None else []
         if allu:
             want_yu.append(y)           # nothing was removed: y[U] is y
-        if not any(same(YU, w) for w in want_yu):
+        if not any(same(m["YUr"], w) for w in want_yu):
             ret_ok = False
             probs.append(f"all-unique={allu}: samples worked on: {short(YU)}")
-        if not same(Sg, S.E("np.sign(V[1:] - V[:-1])", V=YU)):
+        if st is not None:
+            stencils.append((allu, st, twin[allu], mt["inner"]))
+        elif not same(Sg, S.E("np.sign(V[1:] - V[:-1])", V=YU)):
             slope_ok = False
             probs.append({"all-unique": allu, "slope signs": short(Sg), "expected": "sign(diff(retained samples))", "retained samples": short(YU)})
     if not shape_ok:
@@ -672,6 +775,29 @@ def _findap_numpy(ctx, variant, fu, pl, consts, table, lf):
                         "the same sequence the mask and the end-point test index (a slope taken against a dropped sample loses the true turning point)", fn,
               None if slope_ok else probs)
     ctx.check(scatter_ok, "findap (numpy variant): removed repeats are never peaks", fn, None if scatter_ok else probs)
+    if not stencils:
+        return
+    bad_exact, bad_narrow, hidden, node = [], [], [], fn
+    for allu, st, St, cell in stencils:
+        exact, narrow = _reversal_tables(st)
+        if exact and not bad_exact:
+            bad_exact, node = exact + [{"test": short(cell[2], 240)}], cell[3]
+        if narrow and not bad_narrow:
+            bad_narrow, node = narrow + [{"test": short(cell[2], 240)}], cell[3]
+            hidden = [ctx.src.where(n) for n in St.tr.floats[:3]]
+    ctx.check(not bad_exact, "findap (numpy variant): an interior retained sample is marked exactly when it is a strict local extreme of its two retained neighbours "
+                             "(the slopes on its two sides have opposite signs) - the test evaluated element by element on every 3-sample signal over 5 values", node,
+              bad_exact or None)
+    if bad_exact:
+        return
+    msg = ("findap (numpy variant): the reversal test is sign-exact in the signal's own dtype - on every int8 signal [0, d0, d0 + d1] it gives the verdict of exact "
+           "arithmetic (differences, signs and comparisons of samples are safe; a product of two slopes wraps around in narrow integer dtypes unless the samples "
+           "were converted to float first)")
+    if bad_narrow and hidden:
+        # a float literal / true division / untracked cast was evaluated on the path: the value may be floating point without showing it
+        ctx.error(msg, node, {"disagreements": bad_narrow, "but a floating-point value may have entered unseen at": hidden})
+    else:
+        ctx.check(not bad_narrow, msg, node, bad_narrow or None)
 
 
 # ============================================================================================================ fdepsd model
